@@ -261,7 +261,14 @@ TypeOK ==
 FieldsBeforeClose == \A q \in PIds : closed[q] => fld[q] # <<>>
 
 \* the monitor's event-level conditions hold on the model
-ModelSafe == bad = {}
+\* O6 (DESIGN §8.3): without eager wake-ups a container awaiter whose select finds BOTH the
+\* replacement channel and the old promise's done channel ready (the promise was replaced first and
+\* resolved afterwards, the awaiter's goroutine was not scheduled in between) may return the replaced
+\* promise's late result -- Go's select chooses.  PromiseP's "follows replacements" condition
+\* (WrongResult:container:*, via `late`) is exact at the controller's granularity (EagerWake), where
+\* the awaiter always wakes at the replacement; in the full interleaving it is expected and tolerated.
+LateRace == IF EagerWake THEN {} ELSE {n \in bad : Len(n) >= 21 /\ SubSeq(n, 1, 21) = "WrongResult:container"}
+ModelSafe == bad \ LateRace = {}
 
 \* what the pinned code is known to get wrong at quiescent points (F9)
 KnownQuiet ==
